@@ -29,7 +29,11 @@ func NewPlan(property string, master uint64, i int) *Plan {
 		return nil
 	}
 	seed := Mix(MixStr(master, property), uint64(i))
-	p := g(NewRng(seed))
+	r := NewRng(seed)
+	if i&DeepBit != 0 {
+		r.Scale = 2 + i%2
+	}
+	p := g(r)
 	p.Property = property
 	p.Seed = seed
 	return p
